@@ -425,6 +425,33 @@ func (s *Session) SendKeys(keys ...string) {
 }
 
 // SendLiteral types text literally.
+// Drain waits until every action POSTed so far has been executed: posted
+// actions are queued and executed in order, so a marker action at the end of
+// the queue tells when the queue is empty. Needed before switching to
+// keyboard input, which reaches fzf through another channel (the two are not
+// ordered with respect to each other).
+func (s *Session) Drain() bool {
+	syncSeq++
+	marker := filepath.Join(s.Dir, fmt.Sprintf("drained-%d", syncSeq))
+	if code, err := s.Post("execute-silent(touch " + shQuote(marker) + ")"); err != nil || code != 200 {
+		return false
+	}
+	deadline := time.Now().Add(20 * time.Second)
+	for time.Now().Before(deadline) {
+		if _, err := os.Stat(marker); err == nil {
+			os.Remove(marker)
+			return true
+		}
+		if !s.Alive() {
+			return false
+		}
+		time.Sleep(3 * time.Millisecond)
+	}
+	return false
+}
+
+var syncSeq int
+
 func (s *Session) SendLiteral(text string) {
 	s.SendHex([]byte(text))
 }
